@@ -52,7 +52,7 @@ module.exports = {
   spaces: (tier, prepared) => G.spaces(tier, (items) => ({ items })).concat([{
     name: 'O2:optimize-on-objectSlots-off-mergeProps-off',
     bounds: { note: 'focus pairs and core triples again under optimize=true, enableObjectSlots=false, mergeProps=false' },
-    *gen() { for (const a of G.FOCUS) for (const b of G.CORE) { if (G.onceOk([a, b])) yield { items: [a, b], o2: true }; if (G.onceOk([b, a])) yield { items: [b, a], o2: true }; } for (const a of G.MINI) for (const b of G.MINI) for (const d of G.MINI) if (G.onceOk([a, b, d])) yield { items: [a, b, d], o2: true }; },
+    *gen() { for (const a of G.FOCUS) for (const b of G.CORE.concat(G.STATE_D)) { if (G.onceOk([a, b])) yield { items: [a, b], o2: true }; if (G.onceOk([b, a])) yield { items: [b, a], o2: true }; } for (const a of G.MINI) for (const b of G.MINI) for (const d of G.MINI) if (G.onceOk([a, b, d])) yield { items: [a, b, d], o2: true }; },
   }]).concat(tier === 'thorough' ? [G.canonicalSpace(prepared, (items) => ({ items }))] : []),
   requests, judge,
   *shrink(c) { for (const items of G.shrinkItems(c.items)) if (items.length) yield { items, o2: c.o2 }; if (c.o2) yield { items: c.items }; },
